@@ -192,7 +192,11 @@ func c19Outage(w *W) {
 			} else if len(outages) > 0 && rc.start.After(outages[0].to) {
 				phase = "after the directory was restored"
 			}
-			w.Violate("C19:accepted-write-lost", fmt.Sprintf("[%s] %s written %s (%s) is in no file after the outage", pl.Name, rc.id, rc.start.Format("15:04:05.000"), phase), cs)
+			var spans []string
+			for _, o := range outages {
+				spans = append(spans, o.from.Format("05.000")+"-"+o.to.Format("05.000"))
+			}
+			w.Violate("C19:accepted-write-lost", fmt.Sprintf("[%s] %s written %s..%s (call took %v; %s) is in no file after the outage (files %v, actual outages %v)", pl.Name, rc.id, rc.start.Format("15:04:05.000"), rc.end.Format("05.000"), rc.end.Sub(rc.start), phase, fmtTimes(fileTimes), spans), cs)
 		case len(f) > 1:
 			bad = true
 			w.Violate("C19:duplicated-write", fmt.Sprintf("[%s] %s appears %d times", pl.Name, rc.id, len(f)), cs)
@@ -255,7 +259,24 @@ func c19Outage(w *W) {
 				if after {
 					cls = "no-retry-after-restore"
 				}
-				w.Violate("C19:"+cls, fmt.Sprintf("[%s] boundary #%d (%s) lies outside every outage but no file was created in that interval (files: %v)", pl.Name, k, bt.Format("15:04:05"), fmtTimes(fileTimes)), cs)
+				var spans []string
+				for _, o := range outages {
+					spans = append(spans, o.from.Format("05.000")+"-"+o.to.Format("05.000"))
+				}
+				nW := 0
+				var firstW, lastW time.Time
+				for _, rc := range recs {
+					if rc.start.After(bt) && rc.start.Before(bt.Add(interval)) {
+						nW++
+						if firstW.IsZero() || rc.start.Before(firstW) {
+							firstW = rc.start
+						}
+						if rc.end.After(lastW) {
+							lastW = rc.end
+						}
+					}
+				}
+				w.Violate("C19:"+cls, fmt.Sprintf("[%s] boundary #%d (%s) lies outside every outage but no file was created in that interval (files: %v; actual outages %v; %d writes started in that interval, first at %s, last ended %s)", pl.Name, k, bt.Format("15:04:05"), fmtTimes(fileTimes), spans, nW, firstW.Format("05.000"), lastW.Format("05.000")), cs)
 				break
 			}
 			if after {
